@@ -158,7 +158,7 @@ def hocur_case(seed):
 def run(ctx):
     quick = ctx.tier == 'quick'
     lib.stage_proof(ctx, PROP_FILES, ['Check/C15.vo'])
-    n = 250 if quick else 3000
+    n = 250 if quick else 6000
     cases, metas = [], []
     for k in range(n):
         cs = ctx.rng.getrandbits(48)
@@ -187,7 +187,7 @@ def run(ctx):
             return True
         return False
     bad = lib.stage_correspondence(ctx, 'data', REQ, 'check_C15', cases, metas, on_disagree=search, show_fn='run_C15')
-    n_side = 200 if quick else 4000
+    n_side = 200 if quick else 12000
     if bad:
         n_side *= 5
     for k in range(n_side):
